@@ -330,6 +330,36 @@ def structure_oracle(case, stats):
             raise Violation("stale-state-after-edit", "detect_bonds called again on the same object after editing cell/positions "
                             "in place: pair %r min-image distance %.5f cutoff %.5f is %s" %
                             (k, info2[k][0], info2[k][1], "missing" if k in w2 else "spurious"))
+        # third step on the same object: one atom taken out, another one of a type the structure already has put in
+        # (defect / substitution; atom and type counts stay what they were), detect again
+        types = list(dict.fromkeys(els))
+        d = case["move"][0]
+        others = [t for t in types if t != els[d]]
+        if others and len(els) >= 2:
+            from mofun import Atoms
+            newel = others[(d + len(els)) % len(others)]
+            with silenced():
+                newpos = np.array(a.positions[d], float)
+                del a[[d]]
+                a.extend(Atoms(atom_types=[types.index(newel)], positions=[newpos], atom_type_elements=types,
+                               atom_type_labels=types, atom_type_masses=[1.0] * len(types)), offsets=(0, 0, 0, 0, 0))
+                try:
+                    b3 = detect_bonds(a)
+                except Exception as e:
+                    raise Violation("exception-in-detect-bonds", "third call after delete + extend: %s: %r" % (type(e).__name__, e))
+            els3 = [e for k, e in enumerate(els) if k != d] + [newel]
+            p3 = np.array([x for k, x in enumerate(p2) if k != d] + [newpos], float)
+            if np.abs(np.asarray(a.positions, float) - p3).max() > 1e-12:
+                stats.count("skipped:substitution-model-mismatch")
+            else:
+                rows3 = set(tuple(int(x) for x in r) for r in np.asarray(b3).reshape(-1, 2)) if len(b3) else set()
+                w3, info3 = reference(els3, p3, None if C2 is None else C2.tolist(), radii)
+                if all(abs(v[0] / v[1] - 1) > 1e-7 for v in info3.values()) and rows3 != w3:
+                    k = sorted(rows3 ^ w3)[0]
+                    raise Violation("stale-state-after-substitution", "detect_bonds on the same object after del atoms[[%d]] and "
+                                    "extend by one %s atom: pair %r (%s-%s) min-image distance %.5f cutoff %.5f is %s" %
+                                    (d, newel, k, els3[k[0]], els3[k[1]], info3[k][0], info3[k][1], "missing" if k in w3 else "spurious"))
+                stats.count("substituted-an-atom-then-detected-again")
     stats.count("cell:" + case["cell_cls"])
     stats.count("xf:" + case["xf"])
     if case.get("hub"):
